@@ -174,6 +174,11 @@ Definition tsumsq (t : pytree Z) : Z := fold_left Z.add (map sumsq_l (lv t)) 0.
          args = tuple(un.pop(0) if a is None else mapped.pop(0) for a in in_axes)
          y = fun( *unflatten(args));  return None, y
      _, y = _scan(fun_reord, None, mapped)               # leaves of y stacked along axis 0
+     if _int_or_none(out_axes):                          # (/repo 5e18223) a single int / None applies to
+         y_leaves, out_axes_td = tree_flatten(y)         # every LEAF of y (None entries of y are no leaves):
+         out_axes = [out_axes] * len(y_leaves)           # the model's out_axes list has one entry per leaf
+     else: out_axes, out_axes_td = tree_flatten(out_axes, is_leaf=_int_or_none)
+     y, y_td = tree_flatten(y)
      for i, el in zip(out_axes, y):
          if i is None: out.append(el[0])                 # (fixes/C33-1.patch; was unmapped.pop(0))
          elif isinstance(i, int): out.append(_moveaxis(el, 0, i)) *)
